@@ -413,6 +413,11 @@ func TestC16_File(t *testing.T) {
 	})
 }
 
+// c16Zone draws the time-zone / locale part of a run's environment (often none).
+func c16Zone(t *rapid.T) []string {
+	return rapid.SampledFrom([][]string{nil, nil, {"TZ=UTC"}, {"TZ=Pacific/Kiritimati"}, {"TZ=Pacific/Pago_Pago"}, {"TZ=America/St_Johns"}, {"TZ=Asia/Kathmandu"}, {"TZ=:/nonexistent"}, {"TZ="}, {"TZ=Europe/Istanbul", "LANG=tr_TR.UTF-8"}, {"LC_ALL=C"}}).Draw(t, "zone")
+}
+
 // TestC16_CLIViews: the `wtf history` views agree with the searches actually made.
 func TestC16_CLIViews(t *testing.T) {
 	needWtf(t)
@@ -449,7 +454,9 @@ func TestC16_CLIViews(t *testing.T) {
 			if len(log) > 0 && rapid.IntRange(0, 3).Draw(t, "repeat") == 0 {
 				q = log[len(log)-1]
 			}
-			r := runWtf(h, dir, []string{"--no-color", "-d", dbp, "--", q})
+			// every search may run under another time zone / locale (a laptop that travels): the log is
+			// ordered by when the searches were made, however the moments are written down
+			r := runWtf(h, dir, []string{"--no-color", "-d", dbp, "--", q}, c16Zone(t)...)
 			if r.Panicked() || !strings.Contains(r.Stdout, "Searching for: "+q) {
 				t.Fatalf("search %q failed: %s", q, clip(r.Stdout))
 			}
@@ -468,7 +475,7 @@ func TestC16_CLIViews(t *testing.T) {
 				recent = append(recent, log[i])
 			}
 		}
-		out := runWtf(h, dir, []string{"history", "--limit", "50"}).Stdout
+		out := runWtf(h, dir, []string{"history", "--limit", "50"}, c16Zone(t)...).Stdout
 		var shown []string
 		for _, l := range strings.Split(out, "\n") {
 			if m := numbered.FindStringSubmatch(l); m != nil {
@@ -478,11 +485,11 @@ func TestC16_CLIViews(t *testing.T) {
 		if fmt.Sprint(shown) != fmt.Sprint(recent) {
 			t.Fatalf("`wtf history` shows %q, searches made (distinct, newest first) %q\n%s", shown, recent, out)
 		}
-		st := runWtf(h, dir, []string{"history", "--stats"}).Stdout
+		st := runWtf(h, dir, []string{"history", "--stats"}, c16Zone(t)...).Stdout
 		if !strings.Contains(st, fmt.Sprintf("Total searches: %d\n", len(log))) || !strings.Contains(st, fmt.Sprintf("Unique queries: %d\n", len(freq))) {
 			t.Fatalf("`wtf history --stats` disagrees with %d entries / %d unique queries:\n%s", len(log), len(freq), st)
 		}
-		top := runWtf(h, dir, []string{"history", "--top", "--limit", "50"}).Stdout
+		top := runWtf(h, dir, []string{"history", "--top", "--limit", "50"}, c16Zone(t)...).Stdout
 		sum := 0
 		for q, n := range freq {
 			if !strings.Contains(top, fmt.Sprintf("\"%s\" (%d times", q, n)) {
@@ -493,7 +500,7 @@ func TestC16_CLIViews(t *testing.T) {
 		if sum != len(log) {
 			t.Fatalf("harness: frequency sum")
 		}
-		pat := runWtf(h, dir, []string{"history", "--limit", "50", "--", "dis"}).Stdout
+		pat := runWtf(h, dir, []string{"history", "--limit", "50", "--", "dis"}, c16Zone(t)...).Stdout
 		wantPat := 0
 		for _, q := range log {
 			if strings.Contains(q, "dis") {
